@@ -135,6 +135,15 @@ func (w *walker) walk(v reflect.Value, depth int) {
 		for i := 0; i < v.Len(); i++ {
 			w.walk(v.Index(i), depth+1)
 		}
+		// the spare capacity behind a shared slice is shared memory too: an append through a
+		// shallow copy of the header writes there without changing the length anybody sees
+		if c := v.Cap(); c > v.Len() && c-v.Len() <= 64 {
+			w.mix(0xcab0)
+			ext := v.Slice(0, c)
+			for i := v.Len(); i < c; i++ {
+				w.walk(ext.Index(i), depth+1)
+			}
+		}
 	case reflect.Map:
 		if v.IsNil() {
 			w.mix(0)
